@@ -100,12 +100,14 @@ def property_config(pid, tasks):
                     harness=dict(checks=["roundtrip", "history"], kinds=["RT.write", "RT.decode", "RT.content", "RT.reencode"]))
     P["C02"] = dict(decisive=select(tasks, ("SW.", "RT."), props=["C02"]), chain=[],
                     harness=dict(checks=["roundtrip", "history", "size_nonfinite", "size_overlong"], kinds=["RT.size", "RT.consumed"], capture=["CAP.consumed", "CAP.size", "CAP.decode"]))
-    P["C05"] = dict(decisive=select(tasks, ("SEG.",) + tuple(f"RT.{t}" for t in TRACKS) + tuple(f"W.{t}" for t in TRACKS) + tuple(f"B.{t}" for t in TRACKS)),
-                    chain=[], harness=dict(checks=["gaps", "gaps_block", "history"], kinds=["C05"], layouts=list(TRACKS)))
+    P["C05"] = dict(decisive=select(tasks, ("SEG.",) + tuple(f"RT.{t}" for t in TRACKS) + tuple(f"W.{t}" for t in TRACKS) + tuple(f"B.{t}" for t in TRACKS)
+                                    + tuple(f"SW.{t}" for t in TRACKS)),
+                    chain=[], harness=dict(checks=["gaps", "gaps_block", "history", "roundtrip"], kinds=["C05", "RT.size"], layouts=list(TRACKS)))
     P["C06"] = dict(decisive=select(tasks, ("W.", "B."), props=["C06"]), chain=[],
                     harness=dict(checks=["write", "build", "history"], kinds=["W", "B"], modes=("zero",), capture=["CAP.layout", "CAP.decode"]))
     P["C12"] = dict(decisive=select(tasks, ("B.", "R3.", "C13.BTSString.read", "C13.BTSString.bread") + tuple(f"TDF.tdfTypes.{k}.pad" for k in ("i32",))),
-                    chain=[], harness=dict(checks=["build"], kinds=["B", "R3", "S"], capture=["CAP.dontcare", "CAP.reencode", "CAP.decode"]))
+                    chain=[], harness=dict(checks=["build"], kinds=["B", "R3", "S"], capture=["CAP.dontcare", "CAP.reencode", "CAP.decode"],
+                                           extra=[("harness.container_checks2", "run_c12_entries")]))
     P["C13"] = dict(decisive=select(tasks, ("C13.",)), chain=[], harness=dict(btsstring=True))
     # The codec proofs replace some callees by contracts (DESIGN 2, modularity): `_segments`, BTSDate, and the add-one-item
     # methods the decoders call.  The tasks that verify those contracts belong to the proof -- but only the clauses the
